@@ -83,6 +83,13 @@ def _worker_init(modname, quiet):
     os.environ["MPLBACKEND"] = "Agg"
     d = tempfile.mkdtemp(prefix="kv.", dir=SCRATCH_BASE)
     _WORK["dir"] = d
+    # library bookkeeping (matplotlib config / font cache) goes to its own scratch directory
+    lib = tempfile.mkdtemp(prefix="kvlib.", dir=SCRATCH_BASE)
+    os.environ["MPLCONFIGDIR"] = lib
+    _WORK["lib"] = lib
+    # faulted plotting runs leave figures open
+    import warnings
+    warnings.filterwarnings("ignore")
     _WORK["mod"] = importlib.import_module(modname)
     if quiet:
         devnull = os.open(os.devnull, os.O_WRONLY)
@@ -91,6 +98,7 @@ def _worker_init(modname, quiet):
     signal.signal(signal.SIGALRM, _alarm)
     import atexit
     atexit.register(shutil.rmtree, d, True)
+    atexit.register(shutil.rmtree, lib, True)
 
 
 def clean_dir(d):
